@@ -125,3 +125,65 @@ func VH_height_range() {
 	}
 	vReach("ok")
 }
+
+// C17(6''): range queries that end at an arbitrary validated block, on the main chain or on a side branch:
+// HeightToHashRange(start, end, max) == the hashes of end's own ancestor line at heights start..end.height (an error
+// for unknown / unvalidated end, start < 0, start > end.height or more than max results); IntervalBlockHashes(end, k)
+// == end's ancestors at heights k, 2k, ... <= end.height.  Main chain of 7, side branch of 3 forking at height 2.
+//verif:opts reach=range,interval,err
+func VH_hash_range_and_interval_queries() {
+	main := vMkChain(nil, 7, 1)
+	side := vMkChain(main[2], 3, 2)
+	params := &chaincfg.Params{}
+	b := &BlockChain{index: newBlockIndex(nil, params), bestChain: newChainView(main[len(main)-1])}
+	for _, n := range append(append([]*blockNode{}, main...), side...) {
+		n.status = statusDataStored | statusValid
+		b.index.addNode(n)
+	}
+	var end *blockNode
+	k := vNondetLen("end", 10)
+	var endHash chainhash.Hash
+	switch {
+	case k < 7:
+		end = main[k]
+		endHash = end.hash
+	case k < 10:
+		end = side[k-7]
+		endHash = end.hash
+	default:
+		endHash[0] = 0xee // unknown
+	}
+	unvalidated := end != nil && vNondetBool("endNotValidated")
+	if unvalidated {
+		end.status = statusDataStored
+	}
+	if vNondetBool("intervalQuery") {
+		iv := 1 + vNondetLen("interval", 3)
+		got, err := b.IntervalBlockHashes(&endHash, iv)
+		if end == nil || unvalidated {
+			vAssert(err != nil, "unknown or unvalidated end block is an error")
+			vReach("err")
+			return
+		}
+		vAssert(err == nil && len(got) == int(end.height)/iv, "one hash per full interval up to the end block")
+		for i := range got {
+			vAssert(got[i] == specAncestor(end, int32((i+1)*iv)).hash, "the end block's own ancestor at each multiple of the interval")
+		}
+		vReach("interval")
+		return
+	}
+	start := vNondetI32("start")
+	max := vNondetLen("max", 8)
+	got, err := b.HeightToHashRange(start, &endHash, max)
+	bad := end == nil || unvalidated || start < 0 || start > end.height || int(end.height-start+1) > max
+	if bad {
+		vAssert(err != nil, "invalid request is an error")
+		vReach("err")
+		return
+	}
+	vAssert(err == nil && len(got) == int(end.height-start+1), "heights start..end inclusive")
+	for i := range got {
+		vAssert(got[i] == specAncestor(end, start+int32(i)).hash, "hashes of the end block's own ancestor line, ascending")
+	}
+	vReach("range")
+}
